@@ -744,6 +744,11 @@ def int_range(fn, op, at=None, depth=14, _seen=None):
                 ra = int_range(fn, rv[2], sd[1], depth - 1, _seen) or INT_RANGE.get(rv[4])
                 rb = int_range(fn, rv[3], sd[1], depth - 1, _seen) or INT_RANGE.get(rv[4])
                 return _clip(bin_range(rv[1], ra, rb), rv[4])
+        # field of a freshly built tuple: the operand stored there
+        if len(proj) == 1 and isinstance(proj[0], list) and proj[0][0] == "f" and proj[0][1].isdigit():
+            sd = fn.single_def(l) or fn.reaching_def(l, at)
+            if sd and sd[0] == "a" and sd[3][0] == "agg" and sd[3][1][0] == "tuple" and int(proj[0][1]) < len(sd[3][2]):
+                return int_range(fn, sd[3][2][int(proj[0][1])], sd[1], depth - 1, _seen)
         return None
     lty = fn.locals[l].strip()
     key = (l, at)
